@@ -46,7 +46,7 @@ structure SegInfo where
   fin   : Option Err        -- `none`: clean io.EOF; `some e`: the error it stops with
   inOff : Int               -- flateReader.InputOffset when it stops
   sync  : Nat               -- chunkReader.sync when it stops
-deriving Repr, Inhabited
+deriving Repr, Inhabited, DecidableEq
 
 structure Layout where
   recs : List Record
@@ -67,7 +67,7 @@ structure RState where
   zout    : Nat            -- xr.zr.OutputOffset
   err     : Option Err     -- xr.err
   fetched : Int := 0       -- ghost (C17): compressed bytes requested from the ReadSeeker since open
-deriving Repr, Inhabited
+deriving Repr, Inhabited, DecidableEq
 
 /-- adversary: per `zr.Read` call, how many bytes (clamped to what is legal)
     and whether a final EOF is reported together with the last bytes. -/
